@@ -967,4 +967,88 @@ theorem mem_ids (hp : Pre t ax cs) (id : Id) (h : id ∈ t.ids ax) :
   exact ⟨j, by rw [hp.nMajor]; exact hj, e⟩
 
 end run
+/-! ### `eliminate_zeros` keeps the matrix well-formed -/
+
+theorem ptrFrom_length (a : Nat) (ls : List Nat) : (ptrFrom a ls).length = ls.length + 1 := by
+  induction ls generalizing a with
+  | nil => rfl
+  | cons l ls ih => simp [ptrFrom, ih]
+
+theorem ptrFrom_getD (ls : List Nat) : ∀ (a i : Nat), i ≤ ls.length → (ptrFrom a ls).getD i 0 = a + (ls.take i).sum := by
+  induction ls with
+  | nil => intro a i hi; have : i = 0 := by simpa using hi
+           subst this; simp [ptrFrom]
+  | cons l ls ih =>
+    intro a i hi
+    cases i with
+    | zero => simp [ptrFrom]
+    | succ i =>
+      simp only [ptrFrom, List.getD_cons_succ, List.take_succ_cons, List.sum_cons]
+      rw [ih (a + l) i (by simpa using hi)]
+      omega
+
+theorem take_succ_sum (ls : List Nat) (i : Nat) (hi : i < ls.length) : (ls.take (i + 1)).sum = (ls.take i).sum + ls[i] := by
+  induction ls generalizing i with
+  | nil => simp at hi
+  | cons l ls ih =>
+    cases i with
+    | zero => simp
+    | succ i =>
+      simp only [List.take_succ_cons, List.sum_cons, List.getElem_cons_succ]
+      rw [ih i (by simpa using hi)]
+      omega
+
+theorem wfb_of_wf (cs : CS α) (h : cs.WF) : cs.wfb = true := by
+  unfold CS.wfb
+  simp only [Bool.and_eq_true, beq_iff_eq, List.all_eq_true, decide_eq_true_eq, List.mem_range]
+  exact ⟨⟨⟨⟨⟨⟨h.ptrLen, h.ptrZero⟩, h.ptrMono⟩, h.ptrLast⟩, h.sameLen⟩, h.inRange⟩, h.distinct⟩
+
+theorem ofEntries_wf (n m : Nat) (ents : List (List (Nat × α))) (hlen : ents.length = n)
+    (hr : ∀ l ∈ ents, ∀ e ∈ l, e.1 < m) (hd : ∀ l ∈ ents, (l.map (·.1)).Nodup) : (ofEntries n m ents).WF := by
+  have hdata : (ofEntries n m ents).data.length = (ents.map List.length).sum := by
+    simp [ofEntries, List.length_flatten, List.map_map, Function.comp_def]
+  have hidx : (ofEntries n m ents).indices.length = (ents.map List.length).sum := by
+    simp [ofEntries, List.length_flatten, List.map_map, Function.comp_def]
+  refine ⟨?_, ?_, ?_, ?_, ?_, ?_, ?_⟩
+  · simp [ofEntries, ptrFrom_length, hlen]
+  · show (ptrFrom 0 (ents.map List.length))[0]? = some 0
+    cases ents <;> simp [ptrFrom]
+  · intro i hi
+    show (ptrFrom 0 (ents.map List.length)).getD i 0 ≤ (ptrFrom 0 (ents.map List.length)).getD (i + 1) 0
+    have hi0 : i < n := hi
+    have hi' : i < (ents.map List.length).length := by rw [List.length_map, hlen]; exact hi0
+    rw [ptrFrom_getD _ 0 i (by omega), ptrFrom_getD _ 0 (i + 1) (by omega), take_succ_sum _ i hi']
+    omega
+  · show (ptrFrom 0 (ents.map List.length)).getD n 0 = _
+    rw [hdata, ptrFrom_getD _ 0 n (by simp [hlen])]
+    have : (ents.map List.length).take n = ents.map List.length := by
+      apply List.take_of_length_le; simp [hlen]
+    rw [this]; omega
+  · rw [hdata, hidx]
+  · intro j hj
+    simp only [ofEntries, List.mem_flatten, List.mem_map] at hj
+    obtain ⟨l', ⟨l, hl, rfl⟩, hj⟩ := hj
+    obtain ⟨e, he, rfl⟩ := List.mem_map.mp hj
+    exact hr l hl e he
+  · intro i hi
+    show (((ofEntries n m ents).slice i).map (·.1)).Nodup
+    have hi' : i < ents.length := by rw [hlen]; exact hi
+    rw [slice_ofEntries n m ents i hi']
+    have : ents.getD i [] ∈ ents := by
+      rw [List.getD_eq_getElem?_getD, List.getElem?_eq_getElem hi']
+      exact List.getElem_mem hi'
+    exact hd _ this
+
+theorem eliminateZeros_wf [Zero α] [DecidableEq α] (cs : CS α) (h : cs.WF) : (eliminateZeros cs).WF := by
+  unfold eliminateZeros
+  apply ofEntries_wf
+  · simp
+  · intro l hl e he
+    obtain ⟨i, _, rfl⟩ := List.mem_map.mp hl
+    have he' : e ∈ cs.slice i := (List.mem_filter.mp he).1
+    rw [slice_eq] at he'
+    exact idxSeg_inRange cs h i e.1 (List.of_mem_zip he').1
+  · intro l hl
+    obtain ⟨i, hi, rfl⟩ := List.mem_map.mp hl
+    exact (h.distinct i (List.mem_range.mp hi)).sublist (List.filter_sublist.map _)
 end Biom.C13
